@@ -7,12 +7,18 @@ toolchain go1.23.5
 require github.com/bluenviron/gomavlib/v3 v3.0.0
 
 require (
+	golang.org/x/mod v0.22.0 // indirect
+	golang.org/x/sync v0.10.0 // indirect
+)
+
+require (
 	github.com/creack/goselect v0.1.2 // indirect
 	github.com/pion/logging v0.2.2 // indirect
 	github.com/pion/transport/v2 v2.2.10 // indirect
 	go.bug.st/serial v1.6.3 // indirect
-	golang.org/x/net v0.33.0 // indirect
-	golang.org/x/sys v0.28.0 // indirect
+	golang.org/x/net v0.34.0 // indirect
+	golang.org/x/sys v0.29.0 // indirect
+	golang.org/x/tools v0.29.0
 )
 
 replace github.com/bluenviron/gomavlib/v3 => /repo
